@@ -259,7 +259,7 @@ pub fn c10_exhaustive(acc: &mut Acc) -> Value {
 pub const META_C17: Meta = Meta {
     id: "C17",
     level: "exploration",
-    rule: "Cases from profile `random`: random() in row entries, let, loop/repeat bounds, while conditions, ite conditions and both arms, nested random(random(k)+2); bounds from {2,3,10,2^31,2^32+1,2^62, variable/device derived >= 2}; resetRandom at top level, inside loops, twice in a row, before any draw; seeds 0, 1, u64::MAX, 2^32-multiples and PRNG values pinned through the verif-hooks seed override. The hook logs every generator call made by random(n) (bound, value), every resetRandom and every context creation. Oracle: (a) each logged draw with bound >= 2 has 0 <= value < bound; (b) accounting by replay - the reference interpreter runs the same program with random(e) defined as `pop the next log entry, its bound must equal my value of e`, the log must be consumed exactly (no draw missing, none left over, none for an unselected ite arm, bounds of loops drawn once), and the rows, device vectors and vars() it then prescribes must equal the observed ones (as if the drawn values were literals); (c) Reset markers coincide with executed resetRandom statements and any two segments (start of run / after a reset) agree in value on the longest common prefix of their bound sequences; (d) a second run with the same seed produces the identical log, and the context seed logged equals the pinned one; (d') a program that reads no outputs and runs without error items produces the identical draw log when iterated through try_iter_static; (e) declare expressions may draw too, and a share of the cases is run again with the driver answering one checked row in another order - the row is an error item and the draw log must still be consumed exactly by the evaluations the program prescribes. Non-trivial = >= 3 draws and (a resetRandom followed by >= 2 draws, or a draw inside a loop bound / while condition / ite).",
+    rule: "Cases from profile `random`: random() in row entries, let, loop/repeat bounds, while conditions, ite conditions and both arms, nested random(random(k)+2); bounds from {2,3,10,2^31,2^32+1,2^62, variable/device derived >= 2}; resetRandom at top level, inside loops, twice in a row, before any draw; seeds 0, 1, u64::MAX, 2^32-multiples and PRNG values pinned through the verif-hooks seed override. The hook logs every generator call made by random(n) (bound, value), every resetRandom and every context creation. Oracle: (a) each logged draw with bound >= 2 has 0 <= value < bound; (b) accounting by replay - the reference interpreter runs the same program with random(e) defined as `pop the next log entry, its bound must equal my value of e`, the log must be consumed exactly (no draw missing, none left over, none for an unselected ite arm, bounds of loops drawn once), and the rows, device vectors and vars() it then prescribes must equal the observed ones (as if the drawn values were literals); (c) Reset markers coincide with executed resetRandom statements and any two segments (start of run / after a reset) agree in value on the longest common prefix of their bound sequences; (d) a second run with the same seed produces the identical log, and the context seed logged equals the pinned one; (d') a program that reads no outputs and runs without error items produces the identical draw log when iterated through try_iter_static; (e) declare expressions may draw too, and a share of the cases is run again with the driver answering one checked row in another order - the row is an error item and the draw log must still be consumed exactly by the evaluations the program prescribes. 0.1% of the cases are long runs: a loop of 2^16 / 2^17 +-2 draws between the seeding and a resetRandom; the first draw after the reset must repeat the first draw of the run and the log must hold every draw. Expressions e OP e with random inside e (also under ite) occur in 3% of the inner nodes. Non-trivial = >= 3 draws and (a resetRandom followed by >= 2 draws, or a draw inside a loop bound / while condition / ite).",
     assumptions: &[
         "hook LoggedContext forwards the crate's own range expression and generator call unchanged (it only observes)",
         "`one draw` is read as one generator call (gen_range) per evaluation of random(n)",
@@ -295,8 +295,50 @@ fn segments(log: &[DrawRec]) -> Vec<Vec<(i64, i64)>> {
     segs
 }
 
+/// About 2^16 (2^17) draws between the seeding and a `resetRandom;`: a draw counter kept in 16 bits
+/// comes round to zero (after seeded change V-C17-agent19-7). The first draw after the reset must
+/// repeat the first draw of the run (same bound).
+fn c17_many_draws(case_seed: u64, r: &mut Prng, acc: &mut Acc) {
+    let mult = 1 + r.below(2);
+    let d = r.below(5) as i64 - 2;
+    let n = ((mult as i64) * 65536 + d - 1) as usize;
+    let bound = *r.pick(&[2i64, 7, 1000, 1 << 40]);
+    let text = format!("A\n(random(1000))\nloop(i,{n})\nlet t = random({bound});\nend loop\nresetRandom;\n(random(1000))\n(random(1000))\nresetRandom;\n(random(1000))\n");
+    let sigs = vec![Sig { name: "A".into(), bits: 16, kind: SigKind::In(InVal::V(0)) }];
+    let script = Script { layout: vec![], values: ValueFn::Small { salt: 1, modulus: 200 }, faults: vec![], override_write: false, rebuild_signals: false };
+    let seed = r.next_u64();
+    let real = run_text(&text, &sigs, &script, &RunOpts { max_steps: 10, probe_after_end: 1, stop_at_error: true, seed: Some(seed), continue_on: None });
+    acc.evaluations += 1;
+    let log: Vec<DrawRec> = real.steps.iter().flat_map(|s| s.draws.iter().copied()).collect();
+    acc.event("draws_logged", log.iter().filter(|d| matches!(d, DrawRec::Draw { .. })).count() as u64);
+    let mut f = first_some(vec![no_panic(&real), accepted(&real)]);
+    if f.is_none() {
+        let rows: Vec<i64> = real.steps.iter().filter_map(|st| if let RealItem::Row(row) = &st.item { row.inputs.first().and_then(|i| if let InVal::V(v) = i.1 { Some(v) } else { None }) } else { None }).collect();
+        let n_draws = log.iter().filter(|d| matches!(d, DrawRec::Draw { .. })).count();
+        let n_resets = log.iter().filter(|d| matches!(d, DrawRec::Reset)).count();
+        if rows.len() != 4 {
+            f = Some(Finding::new("many-draws-rows", format!("{} rows instead of 4", rows.len())));
+        } else if n_draws != n + 4 || n_resets != 2 {
+            f = Some(Finding::new("draw-accounting", format!("{n_draws} draws and {n_resets} resets logged; the program makes {} and 2", n + 4)));
+        } else if rows[1] != rows[0] || rows[3] != rows[0] {
+            f = Some(Finding::new("reset-does-not-replay", format!("first draw of the run {}, first draw after the reset that follows {} draws: {}, after the second reset: {}", rows[0], n + 1, rows[1], rows[3])));
+        }
+    }
+    match f {
+        Some(f) => acc.violation(case_seed, "many-draws", f, json!({"text": text, "seed": seed})),
+        None => {
+            acc.held += 1;
+            acc.tag("reset_after_about_2^16_draws");
+        }
+    }
+}
+
 pub fn c17(case_seed: u64, acc: &mut Acc) {
     let mut r = Prng::new(case_seed);
+    if !cfg!(miri) && r.chance(10, 10000) {
+        acc.cases += 1;
+        return c17_many_draws(case_seed, &mut r, acc);
+    }
     let cfg = profile_random();
     let mut case = gen::generate(&mut r, &cfg);
     case.rng_seed = match r.below(8) {
